@@ -379,12 +379,17 @@ def render(ir):
     for gi, g in enumerate(ir["gadgets"]):
         out += render_gadget(g, gi)
     out.append('print(("ev", "end", churn(3)));')
+    if ir.get("reset"):
+        # the program rebinds built-in function names before the host resets the interpreter: the built-ins a reset brings
+        # back must be alive (nothing but the rebound globals table referred to the old ones)
+        out.append('var type = [9]; var clock = [8]; print(("ev", "rebound", type, clock, churn(2)));')
     return "\n".join(out) + "\n"
 
 
 AFTER_RESET = PRELUDE + """import "gcm";
 print(("ev", "after-reset", [[1], [2], [3]].iter().map(|x| { return [x, churn(1)]; }).collect(),
        [[1], [2]].iter().filter(|x| { return churn(1) == 1; }).collect(), type(Error), gcm.get(), mkinst(7).sum(), churn(2)));
+print(("ev", "after-reset-builtins", type(clock) == BuiltIn, type(type) == BuiltIn, type([churn(1)]) == Vec, clock() > 0));
 """
 
 
